@@ -59,6 +59,52 @@ def archive_trace(prog, f, eng):
     return out, s
 
 
+class LoadedPair:
+    """How one (label, set) pair of the loaded map is produced: key, value, the conditions under which it is, where."""
+
+    def __init__(self, key, value, conds, where):
+        self.args = (None, key, value)
+        self.conds = conds
+        self._where = where
+
+    def where(self):
+        return self._where
+
+
+def collected_pair(ret, where):
+    """`collect(filter(src, C), body)` / `collectmap(src, C, K, V)` as the function's value: the single pair the body yields."""
+    import tokspec
+    t = ret
+    while t[0] == "call" and isinstance(t[1], str) and last(t[1]) in ("Ok", "into", "from") and len(t[2]) == 1:
+        t = t[2][0]
+    if t[0] == "ctor" and last(t[1]) == "Ok" and len(t[2]) == 1:
+        t = t[2][0]
+    if t[0] == "collectmap":
+        return LoadedPair(t[3], t[4], [(t[2], True)], where)
+    if t[0] != "collect":
+        return None
+    conds = []
+    src = t[1]
+    while src[0] == "hof" and src[1] in ("filter", "map"):
+        if src[1] == "filter":
+            conds.append((src[3], True))
+        src = src[2]
+    pairs = []
+    for cs, leaf in tokspec.leaves(t[2]):
+        if leaf[0] == "ctor" and last(leaf[1]) in ("Ok", "Some") and len(leaf[2]) == 1:
+            leaf = leaf[2][0]
+        elif leaf[0] == "ctor" and last(leaf[1]) in ("Err", "None"):
+            continue
+        if leaf[0] == "tuple" and len(leaf[1]) == 2:
+            pairs.append((cs, leaf))
+        else:
+            return None
+    if len(pairs) != 1:
+        return None
+    cs, leaf = pairs[0]
+    return LoadedPair(leaf[1][0], leaf[1][1], conds + [(c, pol) for c, pol in cs], where)
+
+
 def source_root(t):
     t = terms.strip_iter_adapters(t) if t is not None else None
     while isinstance(t, tuple) and t and t[0] == "call" and isinstance(t[1], str) and last(t[1]) in ("iter", "into_iter", "keys", "values", "clone", "enumerate") and len(t[2]) == 1:
@@ -219,10 +265,14 @@ def run(prog, rep):
     rpn = r.param_names()
     where = f"{r.file}:{r.line}"
     ins = [x for x in rs.all_sites() if x.kind == "mcall" and x.name == "insert" and len(x.args) == 3]
-    if len(ins) != 1:
+    st = None
+    if len(ins) == 1:
+        st = LoadedPair(ins[0].args[1], ins[0].args[2], list(__import__("q").conds(ins[0].pc)), ins[0].where())
+    elif not ins:
+        st = collected_pair(rs.ret, where)          # the map is the value of an iterator pipeline: `..filter(C).map(|e| Ok((K, V))).collect()`
+    if st is None:
         rep.unresolved("C16-R1", "reader/insert", where, f"{len(ins)} insertions into the loaded map")
         return
-    st = ins[0]
     key = strip_str(st.args[1])
     name = None
     good = key[0] == "proj" and last(key[2]) == "Some" and key[1][0] == "call" and last(key[1][1]) == "strip_suffix" and len(key[1][2]) == 2
@@ -234,12 +284,13 @@ def run(prog, rep):
         why = f"the reader strips {sem.short(sfx, 20)} from {sem.short(name, 60)}; the writer appends {suffix!r} to the label"
     rep.check(good, "C16-R1", "reader/label", st.where(), "label = entry name with the writer's suffix stripped once", why)
     # filter
-    conds = [(t, pol) for t, pol in __import__("q").conds(st.pc) if any(y[0] == "call" and isinstance(y[1], str) and last(y[1]) == "extension" for y in [t] + list(subterms(t)))]
+    conds = [(t, pol) for t, pol in st.conds if any(y[0] == "call" and isinstance(y[1], str) and last(y[1]) == "extension" for y in [t] + list(subterms(t)))]
     want = (suffix or ".bdd").lstrip(".")
     verdicts = {}
     for v in (want, "txt", want.upper(), None):
         vals = [(ext_value(t, v), pol) for t, pol in conds]
-        verdicts[v] = None if any(x is None for x, _ in vals) else all(x == pol for x, pol in vals)
+        # a conjunction: one condition that definitely fails decides (the others may then be meaningless, e.g. the payload of a None)
+        verdicts[v] = False if any(x is not None and x != pol for x, pol in vals) else (None if any(x is None for x, _ in vals) else True)
     ext_ok = bool(conds) and verdicts[want] is True and verdicts["txt"] is False and verdicts[None] is False and verdicts[want.upper()] is False
     if conds and any(v is None for v in verdicts.values()):
         rep.unresolved("C16-R1", "reader/filter", where, f"the extension filter could not be evaluated: {[sem.short(t, 80) for t, _ in conds]}")
